@@ -190,14 +190,15 @@ func (p *tableParser) parseMapField(field *internalpb.Field, header *tableHeader
 		firstElemIndex = index1
 		layout = tableaupb.Layout_LAYOUT_HORIZONTAL
 		nextCursor := cursor + 1
-		if nextCursor < len(header.nameRowData) {
+		// NOTE: trailing empty name cells (kept by a rectangular CSV export, dropped
+		// by the Excel reader) are not columns: only a real next column counts.
+		if nextNameCell := header.getValidNameCell(&nextCursor); nextNameCell != "" {
 			// Header:
 			//
 			// TaskParamMap1		TaskParamMap2		TaskParamMap3
 			// map<int32, int32>	map<int32, int32>	map<int32, int32>
 
 			// check next cursor
-			nextNameCell := header.getValidNameCell(&nextCursor)
 			trimmedNextNameCell := strings.TrimPrefix(nextNameCell, prefix)
 			if index2 := strings.Index(trimmedNextNameCell, "2"); index2 > 0 {
 				nextTypeCell := header.getTypeCell(nextCursor)
@@ -472,14 +473,15 @@ func (p *tableParser) parseListField(field *internalpb.Field, header *tableHeade
 		firstElemIndex = index1
 		layout = tableaupb.Layout_LAYOUT_HORIZONTAL
 		nextCursor := cursor + 1
-		if nextCursor < len(header.nameRowData) {
+		// NOTE: trailing empty name cells (kept by a rectangular CSV export, dropped
+		// by the Excel reader) are not columns: only a real next column counts.
+		if nextNameCell := header.getValidNameCell(&nextCursor); nextNameCell != "" {
 			// Header:
 			//
 			// TaskParamList1	TaskParamList2	TaskParamList3
 			// []int32			[]int32			[]int32
 
 			// check next cursor
-			nextNameCell := header.getValidNameCell(&nextCursor)
 			trimmedNextNameCell := strings.TrimPrefix(nextNameCell, prefix)
 			if index2 := strings.Index(trimmedNextNameCell, "2"); index2 > 0 {
 				nextTypeCell := header.getTypeCell(nextCursor)
